@@ -154,12 +154,52 @@ static void coefwise(int N) {
     delete_TorusPolynomial(r); delete_TorusPolynomial(p1); delete_TorusPolynomial(p2); delete_IntPolynomial(ia); delete_IntPolynomial(ib);
 }
 
+// aliased arguments, wherever the API does not forbid them (Copy, Add, Sub, MulByXai*, MultNaive assert result != operand and are left out):
+// the result must be the value-semantics result computed from the operands as they were before the call.
+static void aliased(int N) {
+    static const int32_t PS[] = {0, 1, -1, 2, -3, 32767, INT32_MIN, INT32_MAX, 0x12345678};
+    TorusPolynomial *r = new_TorusPolynomial(N), *q = new_TorusPolynomial(N); IntPolynomial *ia = new_IntPolynomial(N);
+    for (int kind = 0; kind < 6; kind++) {
+        std::string key = fmt("aliased/N=%d/content=%s%d", N, kindname(kind), kind);
+        if (!take(key)) continue; if (deadline()) break; current(key);
+        std::vector<uint32_t> R0(N), Q0(N); fill((Torus32 *)R0.data(), N, kind, 31 + kind); fill((Torus32 *)Q0.data(), N, 4, 77 + kind);
+        auto set = [&]() { memcpy(r->coefsT, R0.data(), N * 4); memcpy(q->coefsT, Q0.data(), N * 4); };
+        auto chk = [&](const char *name, std::function<uint32_t(int)> f) -> bool { for (int i = 0; i < N; i++) if ((uint32_t)r->coefsT[i] != f(i)) { violation(key, fmt("%s wrong at coefficient %d (N=%d): 0x%08x, value semantics give 0x%08x", name, i, N, (uint32_t)r->coefsT[i], f(i))); return false; } eval(1); return true; };
+        bool ok = true;
+        set(); torusPolynomialAddTo(r, r); ok = ok && chk("torusPolynomialAddTo(r, r)", [&](int i) { return 2 * R0[i]; });
+        set(); torusPolynomialSubTo(r, r); ok = ok && chk("torusPolynomialSubTo(r, r)", [&](int) { return 0u; });
+        for (int32_t p : PS) { if (!ok) break; uint32_t up = (uint32_t)p;
+            set(); torusPolynomialAddMulZ(r, r, p, q); ok = ok && chk("torusPolynomialAddMulZ(r, r, p, q)", [&](int i) { return R0[i] + up * Q0[i]; });
+            set(); torusPolynomialAddMulZ(r, q, p, r); ok = ok && chk("torusPolynomialAddMulZ(r, q, p, r)", [&](int i) { return Q0[i] + up * R0[i]; });
+            set(); torusPolynomialAddMulZ(r, r, p, r); ok = ok && chk("torusPolynomialAddMulZ(r, r, p, r)", [&](int i) { return R0[i] + up * R0[i]; });
+            set(); torusPolynomialAddMulZ(r, q, p, q); ok = ok && chk("torusPolynomialAddMulZ(r, q, p, q)", [&](int i) { return Q0[i] + up * Q0[i]; });
+            set(); torusPolynomialSubMulZ(r, r, p, q); ok = ok && chk("torusPolynomialSubMulZ(r, r, p, q)", [&](int i) { return R0[i] - up * Q0[i]; });
+            set(); torusPolynomialSubMulZ(r, q, p, r); ok = ok && chk("torusPolynomialSubMulZ(r, q, p, r)", [&](int i) { return Q0[i] - up * R0[i]; });
+            set(); torusPolynomialSubMulZ(r, r, p, r); ok = ok && chk("torusPolynomialSubMulZ(r, r, p, r)", [&](int i) { return R0[i] - up * R0[i]; });
+            set(); torusPolynomialAddMulZTo(r, p, r); ok = ok && chk("torusPolynomialAddMulZTo(r, p, r)", [&](int i) { return R0[i] + up * R0[i]; });
+            set(); torusPolynomialSubMulZTo(r, p, r); ok = ok && chk("torusPolynomialSubMulZTo(r, p, r)", [&](int i) { return R0[i] - up * R0[i]; });
+            if (memcmp(q->coefsT, Q0.data(), N * 4)) { violation(key, "the non-aliased operand was modified"); ok = false; } }
+        // Karatsuba family with the torus operand as result: b := a*b, b += a*b, b -= a*b
+        for (int ka = 0; ka < 3 && ok; ka++) { std::vector<Torus32> prod(N); uint64_t x = 5 + ka;
+            for (int i = 0; i < N; i++) ia->coefs[i] = ka == 0 ? (i == 1 % N ? 1 : 0) : ka == 1 ? (int32_t)(splitmix(x) % 1024) - 512 : (int32_t)splitmix(x);
+            ref::negacyclic_mul_fast(prod.data(), ia->coefs, (const Torus32 *)R0.data(), N);
+            set(); torusPolynomialMultKaratsuba(r, ia, r); ok = ok && chk("torusPolynomialMultKaratsuba(b, a, b)", [&](int i) { return (uint32_t)prod[i]; });
+            set(); torusPolynomialAddMulRKaratsuba(r, ia, r); ok = ok && chk("torusPolynomialAddMulRKaratsuba(b, a, b)", [&](int i) { return R0[i] + (uint32_t)prod[i]; });
+            set(); torusPolynomialSubMulRKaratsuba(r, ia, r); ok = ok && chk("torusPolynomialSubMulRKaratsuba(b, a, b)", [&](int i) { return R0[i] - (uint32_t)prod[i]; }); }
+        for (int i = 0; i < N; i++) ia->coefs[i] = (int32_t)R0[i];
+        intPolynomialAddTo(ia, ia); for (int i = 0; i < N && ok; i++) if ((uint32_t)ia->coefs[i] != 2 * R0[i]) { violation(key, "intPolynomialAddTo(a, a) wrong"); ok = false; }
+        eval(1); nontrivial(1); outcome(mix(N, kind + 1000));
+    }
+    delete_TorusPolynomial(r); delete_TorusPolynomial(q); delete_IntPolynomial(ia);
+}
+
 int main(int argc, char **argv) {
     init(argc, argv);
     int Nbasis = (int)opti("nbasis", quick() ? 128 : 512);
     int Nmax = (int)opti("nmax", 2048);
-    for (int N = 1; N <= Nmax; N *= 2) { monomials(N); coefwise(N); products(N, Nbasis); }
+    for (int N = 1; N <= Nmax; N *= 2) { monomials(N); coefwise(N); aliased(N); products(N, Nbasis); }
     sample("N=8 a=11: X^a*p, (X^a-1)*p for 7 contents (MIN, MAX, alternating, -1, seeded, e0, MIN*e_{N-1}) vs explicit index arithmetic");
     sample(fmt("N<=%d: all basis pairs (X^i, c*X^j), c in {1+j, INT32_MIN}: Naive/Karatsuba/AddMulR/SubMulR vs exact negacyclic product", Nbasis));
+    sample("aliased/N=8: AddMulZ(r,q,p,r), SubMulZ(r,r,p,r), AddMulZTo(r,p,r), AddTo(r,r), MultKaratsuba(b,a,b), AddMulRKaratsuba(b,a,b), ... for 9 scalars: the result equals the value-semantics result of the operands before the call");
     return finish();
 }
